@@ -1193,6 +1193,80 @@ func c12GenSchedCache(r *verifh.Rng) verifh.Section {
 	return verifh.Section{Cfg: fmt.Sprintf("n=300 interval=%d mode=sched client=cache%s expire=%d pri=%s", sec, opt, expire, c12Pri(r)), Ops: ops}
 }
 
+
+// c12GenSchedGoexit: callbacks that call runtime.Goexit (what testing.T.FailNow does) or panic, inside batches of
+// several timers due at one tick, at the following ticks, and in Drains. The goroutine of runTasks ends at a Goexit:
+// which timers of the tick are behind it depends on the order of the slot list, so these sections only set keys
+// that are not pending (the order of the slot is then the order of the sets, in the code and in the model).
+func c12GenSchedGoexit(r *verifh.Rng) verifh.Section {
+	n := r.Pick(2, 3, 5, 8)
+	interval := r.Pick(1, 7)
+	pending := map[int]int{}
+	abs := 0
+	var ops []string
+	free := func() int {
+		for i := 0; i < 30; i++ {
+			if k := r.Intn(12); pending[k] == 0 {
+				return k
+			}
+		}
+		return -1
+	}
+	set := func(k, steps int) {
+		if k < 0 {
+			return
+		}
+		ops = append(ops, fmt.Sprintf("set %d %d %d", k, r.Intn(1000), steps*interval+r.Intn(interval)))
+		pending[k] = abs + steps
+	}
+	tick := func() {
+		ops = append(ops, "tick")
+		abs++
+		for k, due := range pending {
+			if due <= abs {
+				delete(pending, k)
+			}
+		}
+	}
+	kind := func() string { return r.PickS("goexit", "goexit", "err", "str") }
+	for j := r.Range(4, verifh.Scale(25, 40)); j > 0; j-- {
+		switch x := r.Intn(20); {
+		case x < 5:
+			set(free(), r.Pick(1, 1, 2, 3, n, n+1, 2*n+1))
+		case x < 10:
+			steps := r.Range(1, 2)
+			var batch []int
+			for i := r.Range(2, 4); i > 0; i-- {
+				if k := free(); k >= 0 {
+					set(k, steps)
+					batch = append(batch, k)
+				}
+			}
+			for i := r.Range(1, 2); i > 0 && len(batch) > 0; i-- {
+				ops = append(ops, fmt.Sprintf("boom %d %s", batch[r.Intn(len(batch))], kind()))
+			}
+			if r.Bool() {
+				set(free(), steps+1) // due at the tick after the Goexit
+			}
+		case x < 11:
+			k := r.Intn(12)
+			ops = append(ops, fmt.Sprintf("remove %d", k))
+			delete(pending, k)
+		case x < 12:
+			ops = append(ops, fmt.Sprintf("boom %d %s", r.Intn(12), kind()))
+		case x < 13:
+			ops = append(ops, "drain")
+			pending = map[int]int{}
+		default:
+			tick()
+		}
+	}
+	for i := r.Pick(2, 3, n+1); i > 0; i-- {
+		tick()
+	}
+	return verifh.Section{Cfg: fmt.Sprintf("n=%d interval=%d mode=sched client=wheel pri=%s", n, interval, c12Pri(r)), Ops: ops}
+}
+
 func c12GenSched(r *verifh.Rng) []verifh.Section {
 	var secs []verifh.Section
 	// every NewCache leaves its statLoop goroutine behind and the goroutine dump grows with it: fewer cache sections
@@ -1201,6 +1275,9 @@ func c12GenSched(r *verifh.Rng) []verifh.Section {
 	}
 	for i := verifh.Scale(60, 250); i > 0; i-- {
 		secs = append(secs, c12GenSchedCache(r))
+	}
+	for i := verifh.Scale(40, 300); i > 0; i-- {
+		secs = append(secs, c12GenSchedGoexit(r))
 	}
 	return secs
 }
@@ -1229,81 +1306,13 @@ func c12GenSched(r *verifh.Rng) []verifh.Section {
 // Observation: result tokens, rq=<requests in the order the loop received them; sorted when callbacks issue them>,
 // the k:v pairs handed to callbacks, held, has=<keys in data>, detached=<n>.
 
-var c12StackBuf = make([]byte, 1<<16)
-
-// c12Goroutines returns the dump of all goroutines, the caller's first.
-func c12Goroutines() []string {
-	for {
-		n := runtime.Stack(c12StackBuf, true)
-		if n < len(c12StackBuf) {
-			return strings.Split(strings.TrimSpace(string(c12StackBuf[:n])), "\n\n")
-		}
-		c12StackBuf = make([]byte, 2*len(c12StackBuf))
-	}
-}
-
-func c12GState(g string) string {
-	i, j := strings.IndexByte(g, '['), strings.IndexByte(g, ']')
-	if i < 0 || j < i {
-		return "running"
-	}
-	st := g[i+1 : j]
-	if k := strings.IndexByte(st, ','); k >= 0 {
-		st = st[:k]
-	}
-	return st
-}
-
-func c12Busy(g string) bool {
-	switch c12GState(g) {
-	case "running", "runnable", "preempted", "copystack", "waiting", "dead", "idle":
-		return true
-	case "syscall":
-		return !strings.Contains(g, "os/signal.")
-	}
-	return strings.HasPrefix(c12GState(g), "GC") // GC assist wait …: goes on by itself
-}
-
-// c12Quiesce returns once every goroutine but the caller is blocked.
-func c12Quiesce() bool {
-	deadline := time.Now().Add(10 * time.Second)
-	for i := 0; ; i++ {
-		runtime.Gosched()
-		busy := false
-		for _, g := range c12Goroutines()[1:] {
-			if c12Busy(g) {
-				busy = true
-				break
-			}
-		}
-		if !busy {
-			return true
-		}
-		if i > 100 {
-			time.Sleep(20 * time.Microsecond)
-		}
-		if i%64 == 63 && time.Now().After(deadline) {
-			return false
-		}
-	}
-}
-
-// c12InWheelAPI counts the goroutines blocked inside a public method of the wheel.
-func c12InWheelAPI() int {
-	n := 0
-	for _, g := range c12Goroutines()[1:] {
-		if c12GState(g) != "select" {
-			continue
-		}
-		for _, m := range []string{"SetTimer", "MoveTimer", "RemoveTimer", "Drain"} {
-			if strings.Contains(g, "collection.(*TimingWheel)."+m+"(") {
-				n++
-				break
-			}
-		}
-	}
-	return n
-}
+// the goroutine-dump helpers and the request loop live in zz_verif_c12_sched.go (shared with core/stores/cache)
+var (
+	c12Goroutines = VerifC12Goroutines
+	c12GState     = VerifC12GState
+	c12Quiesce    = VerifC12Quiesce
+	c12InWheelAPI = VerifC12InWheelAPI
+)
 
 type c12HoldSink struct {
 	mu      sync.Mutex
@@ -1344,6 +1353,8 @@ func (s *c12HoldSink) exec(k, v any) {
 		panic(fmt.Errorf("c12: callback of key %s panics with an error value", ks))
 	case "str":
 		panic("c12: callback of key " + ks + " panics with a string")
+	case "goexit":
+		runtime.Goexit()
 	}
 }
 
@@ -1363,43 +1374,11 @@ type c12Sched struct {
 
 // poll receives one pending request, by priority, and handles it the way run does.
 func (s *c12Sched) poll() bool {
-	for _, p := range s.pri {
-		switch p {
-		case "set":
-			select {
-			case task := <-s.tw.setChannel:
-				s.rq = append(s.rq, fmt.Sprintf("set:%v:%v:%d", task.key, task.value, int64(task.delay)))
-				s.tw.setTask(&task)
-				return true
-			default:
-			}
-		case "move":
-			select {
-			case task := <-s.tw.moveChannel:
-				s.rq = append(s.rq, fmt.Sprintf("move:%v:%d", task.key, int64(task.delay)))
-				s.tw.moveTask(task)
-				return true
-			default:
-			}
-		case "remove":
-			select {
-			case key := <-s.tw.removeChannel:
-				s.rq = append(s.rq, fmt.Sprintf("remove:%v", key))
-				s.tw.removeTask(key)
-				return true
-			default:
-			}
-		case "drain":
-			select {
-			case fn := <-s.tw.drainChannel:
-				s.rq = append(s.rq, "drain")
-				s.tw.drainAll(fn)
-				return true
-			default:
-			}
-		}
+	tok, ok := VerifC12Poll(s.tw, s.pri, nil)
+	if ok {
+		s.rq = append(s.rq, tok)
 	}
-	return false
+	return ok
 }
 
 // serve is the run loop for one operation of the client: `returned` says whether the client's call is over.
@@ -1451,13 +1430,7 @@ func (s *c12Sched) call(f func()) (note, outcome string) {
 	return note, outcome
 }
 
-func c12SchedWheel(orig *TimingWheel, exec Execute) *TimingWheel {
-	orig.Stop()
-	tw := *orig // every field as the constructor set it …
-	tw.stopChannel = make(chan struct{}) // … but a stop channel that is open, and no run loop
-	tw.execute = exec
-	return &tw
-}
+var c12SchedWheel = VerifC12SchedWheel
 
 type c12TypedErr struct{}
 
@@ -1521,7 +1494,7 @@ func TestVerifC12Sched(t *testing.T) {
 				}
 				sink.mu.Unlock()
 				return "armed"
-			case op[0] == "boom" && len(op) == 3 && (op[2] == "err" || op[2] == "str"):
+			case op[0] == "boom" && len(op) == 3 && (op[2] == "err" || op[2] == "str" || op[2] == "goexit"):
 				sink.mu.Lock()
 				sink.booms[op[1]] = op[2]
 				sink.mu.Unlock()
